@@ -19,7 +19,8 @@
 //	           ammo = number of ammo (-1 endless); tokens = once(tokens) (-1 = unlimited 1h schedule);
 //	           fault = none|prov|aggr|gun|warm|sched|bind|panic|provnil|aggrnil at position k, or a REAL provider:
 //	           dopen|dopenlate|ddecode|dok|dnew|dfile|jsonbad|jsonio|httpbad (see realProvider), scan-<poison> (see
-//	           scanProvider), gj-<poison>-<passes>-<limit>-<coe>-<maxsize>
+//	           scanProvider), gj-<poison>-<passes>-<limit>-<coe>-<maxsize>, jd-<poison>-<passes>-<limit>-<style> (the real JSON
+//	           decode provider on data sources of every kind: jsondecode.go)
 //	           a REAL aggregator: eopen|eenc|eflush|eclose|eencclose|eok (see realaggr.go); the real grpc gun: gw-... (see grpcwarm.go);
 //	           (the real grpc/json provider on k good lines, a broken element, `ammo` good lines; gate 1 = short reads; see gjPlan);
 //	           optional 9th field: the VALUE of the prov/aggr error (plain|wdeadline|wcancel|fmtcancel|nettimeout|joined);
@@ -597,6 +598,10 @@ func realProvider(pm *poolMocks, pl poolPlan) core.Provider {
 	default:
 		if strings.HasPrefix(pl.fault, "scan-") {
 			inner = scanProvider(pm, pl, pl.fault[5:])
+			break
+		}
+		if j, ok := parseJD(pl.fault); ok {
+			inner = jdProvider(pm, pl, j)
 			break
 		}
 		g, ok := parseGJ(pl.fault)
@@ -1447,6 +1452,55 @@ func gen(r *vh.Rand, tier string) []string {
 					line += " " + poolStr(healthy)
 				}
 				out = append(out, line)
+			}
+		}
+		// the REAL JSON decode provider (provider.NewJSONProvider) on data sources of every kind: one that can be sought /
+		// cannot / hands its last data out together with io.EOF, long and short reads; data that is healthy, holds an
+		// object that does not decode (first / in the middle / the very last thing), or holds white space only (or
+		// nothing); every passes (0 = unlimited) and limit; the schedule is unlimited: only the provider ends the pool
+		jdCase := func(poison string, passes, limit int, style string, k, m int) {
+			ft := fmt.Sprintf("jd-%s-%d-%d-%s", poison, passes, limit, style)
+			p := poolPlan{n: r.Range(1, 3), shared: r.Bool(), ammo: m, tokens: -1, fault: ft, k: k, gate: r.Bool()}
+			line := "run " + r.Pick([]string{"none", "none", "none", "after"}) + " " + poolStr(p)
+			if r.Chance(1, 5) {
+				line += " " + poolStr(healthy)
+			}
+			out = append(out, line)
+		}
+		for _, style := range []string{"f", "n", "e"} {
+			// white space only / nothing at all: under every passes, with and without a limit
+			for _, passes := range []int{0, 0, 1, 2, r.Range(3, 5)} {
+				jdCase("blank", passes, r.PickInt([]int{0, 0, r.Range(1, 4)}), style, r.PickInt([]int{0, 1, 1, 2, 3, 7}), 0)
+			}
+			// an object that does not decode: before the first ammo, in the middle, the very last thing of the data
+			for _, pos := range []int{0, 1, 2, 2, 2} {
+				k, m := 0, r.Range(1, 3)
+				switch pos {
+				case 1:
+					k = r.Range(1, 5)
+				case 2:
+					k, m = r.Range(0, 5), 0
+				}
+				jdCase("bad", r.PickInt([]int{0, 1, 1, 2, 3}), 0, style, k, m)
+			}
+			// healthy data: the end of the data (after `passes` passes) or the limit ends the pool
+			for i := 0; i < 5; i++ {
+				k, m := r.Range(0, 5), r.Range(0, 3)
+				if k+m == 0 {
+					k = 1
+				}
+				passes := r.PickInt([]int{0, 1, 1, 2, 3})
+				limit := 0
+				switch {
+				case passes == 0 && style == "f":
+					limit = r.Range(1, 14)
+				case r.Chance(1, 3):
+					limit = r.PickInt([]int{1, k, k + m, k + m + 1, 2*(k+m) + 1, r.Range(1, 14)})
+					if limit == 0 {
+						limit = 1
+					}
+				}
+				jdCase("none", passes, limit, style, k, m)
 			}
 		}
 		// the real grpc/json provider on a file with a broken element (an undecodable line, a failing Read, a line
